@@ -196,9 +196,11 @@ def need(T, op):
     """('data', set of block ids) | ('footer', list of (start, stop) byte ranges)."""
     m, a = op["m"], op["a"]
     s = T.s
-    if m in ("gen_trace_header", "gen_trace_header_all", "header", "get_tracefield_values"):
+    if m == "meta":
+        return "footer", []     # hash, file headers, counts and axes come from the header blocks read at open
+    if m in ("gen_trace_header", "gen_trace_header_all", "header", "get_tracefield_values", "attributes"):
         arrays = [(s.footer_start + k * s.stride, s.footer_start + k * s.stride + s.array_len) for k in range(s.n_arrays)]
-        if m == "get_tracefield_values":
+        if m in ("get_tracefield_values", "attributes"):
             k = T.owners.index(a[0])
             return "footer", [arrays[k]]
         if m in ("gen_trace_header", "header") and T.structured and not T.is_2d:
